@@ -389,11 +389,11 @@ theorem C19_inner_reparse_sharp :
     parseCE (stripped [cs!"s", cs!"f(1)"]) = .ok ([.path [(cs!"s", [])]], []) := by decide
 
 -- non-vacuity: a dataset with an array and a sequence; `a[1:2]` beside `mean(b,0)` and `s.i>1`
-def exDs : Dataset := ⟨cs!"d", [.base ⟨cs!"a", cs!"Int32", [3], [], [5, 6, 7], .arr⟩,
-  .base ⟨cs!"b", cs!"Int32", [2], [], [1, 3], .arr⟩, .seq cs!"s" [(cs!"i", cs!"Int32")] [[1], [2], [3]]]⟩
+def exDs : Dataset := ⟨cs!"d", [.base { name := cs!"a", ty := cs!"Int32", shape := [3], dims := [], data := [5, 6, 7] },
+  .base { name := cs!"b", ty := cs!"Int32", shape := [2], dims := [], data := [1, 3] }, .seq cs!"s" [(cs!"i", cs!"Int32")] [[1], [2], [3]]]⟩
 def exEv (_ : Dataset) (c : Str) : Except Exc Var :=
-  if c = cs!"mean(b,0)" then .ok (.base ⟨cs!"b", cs!"Float64", [], [], [2], .arr⟩)
-  else if c = cs!"mean(a,0)" then .ok (.base ⟨cs!"a", cs!"Float64", [], [], [6], .arr⟩) else .error .keyError
+  if c = cs!"mean(b,0)" then .ok (.base { name := cs!"b", ty := cs!"Float64", shape := [], dims := [], data := [2] })
+  else if c = cs!"mean(a,0)" then .ok (.base { name := cs!"a", ty := cs!"Float64", shape := [], dims := [], data := [6] }) else .error .keyError
 
 example : Keyed exDs := by
   refine ⟨by decide, ?_⟩
@@ -403,14 +403,14 @@ example : Keyed exDs := by
   · trivial
   · trivial
   · exact ⟨by decide, by decide⟩
-example : (fnDataset exEv exDs [.call cs!"mean(b,0)", .path [(cs!"a", [⟨some 1, some 3, some 1⟩])], .path [(cs!"i", [])]] [cs!"s.i>1"]).map (·.vars)
-    = .ok [.base ⟨cs!"a", cs!"Int32", [2], [], [6, 7], .arr⟩, .seq cs!"s" [(cs!"i", cs!"Int32")] [[2], [3]],
-           .base ⟨cs!"b", cs!"Float64", [], [], [2], .arr⟩] := by decide
+example : (fnDataset exEv exDs [.call cs!"mean(b,0)", .path [(cs!"a", [⟨some 1, some 3, some 1⟩])], .path [(cs!"i", [])]] [cs!"s.i>1"]).map (·.shown.vars)
+    = .ok [.base { name := cs!"a", ty := cs!"Int32", shape := [2], dims := [], data := [6, 7] }, .seq cs!"s" [(cs!"i", cs!"Int32")] [[2], [3]],
+           .base { name := cs!"b", ty := cs!"Float64", shape := [], dims := [], data := [2] }] := by decide
 -- a result whose name is taken is not in the answer; calls only: the results only
-example : (fnDataset exEv exDs [.path [(cs!"a", [])], .call cs!"mean(a,0)"] []).map (·.vars)
-    = .ok [.base ⟨cs!"a", cs!"Int32", [3], [], [5, 6, 7], .arr⟩] := by decide
-example : (fnDataset exEv exDs [.call cs!"mean(a,0)", .call cs!"mean(b,0)"] []).map (·.vars)
-    = .ok [.base ⟨cs!"a", cs!"Float64", [], [], [6], .arr⟩, .base ⟨cs!"b", cs!"Float64", [], [], [2], .arr⟩] := by decide
+example : (fnDataset exEv exDs [.path [(cs!"a", [])], .call cs!"mean(a,0)"] []).map (·.shown.vars)
+    = .ok [.base { name := cs!"a", ty := cs!"Int32", shape := [3], dims := [], data := [5, 6, 7] }] := by decide
+example : (fnDataset exEv exDs [.call cs!"mean(a,0)", .call cs!"mean(b,0)"] []).map (·.shown.vars)
+    = .ok [.base { name := cs!"a", ty := cs!"Float64", shape := [], dims := [], data := [6] }, .base { name := cs!"b", ty := cs!"Float64", shape := [], dims := [], data := [2] }] := by decide
 -- a failing ordinary item fails the request
 example : ∃ e, constrain exDs [.path [(cs!"a", [⟨some 5, some 6, some 1⟩])]] [] = .error e ∧
     fnDataset exEv exDs [.path [(cs!"a", [⟨some 5, some 6, some 1⟩])], .call cs!"mean(b,0)"] [] = .error e := ⟨.ceError, by decide, by decide⟩
